@@ -429,8 +429,8 @@ def real_parent(tree, i):
 
 def stage_c(ctx, procs):
     rng = ctx.rng
-    nschema = ctx.pick(8, 300)            # schemas that get every injection
-    ncorrupt = ctx.pick(10, 150)          # schemas whose compiled model is corrupted field by field
+    nschema = ctx.pick(12, 300)           # schemas that get every injection
+    ncorrupt = ctx.pick(14, 150)          # schemas whose compiled model is corrupted field by field
     gen = K.Gen(rng, p_forward=0.12)
     wrecs, srecs, meta = [], [], {}
     sid = 0
